@@ -29,14 +29,15 @@ SeqsUpTo(S, k) ==
 
 ---------------------------------------------------------------------------
 (* C02: canonicity on the whole of AllWF                                   *)
-AllFromCanon == {Canon(S) : S \in SUBSET Asg}
-
-ThmC02(a) ==
+\* The domain of C02 is the disjoint union of the diagrams and of the sets of assignments:
+\*   <<"n", a>>: a well-formed diagram is the canonical form of its own denotation   (Canon o Sat = id on AllWF)
+\*   <<"s", S>>: the canonical form of S is a well-formed diagram that denotes S       (Sat o Canon = id on SUBSET Asg)
+\* Together: Sat is a bijection AllWF -> SUBSET Asg, i.e. equal function <=> identical diagram.
+ThmC02(e) ==
     /\ NW = Pow2(Pow2(NV))
-    /\ WF(a)
-    /\ Canon(Sat(a)) = a
-    /\ \A b \in W : (Sat(a) = Sat(b)) => (a = b)
-    /\ a \in AllFromCanon
+    /\ IF e[1] = "n"
+       THEN WF(e[2]) /\ Canon(Sat(e[2])) = e[2]
+       ELSE LET c == Canon(e[2]) IN WF(c) /\ c \in W /\ Sat(c) = e[2]
 
 (* C03: connectives are pointwise; operands are values, nothing to mutate  *)
 ThmC03(a) ==
@@ -95,7 +96,8 @@ ThmC20(a) ==
 
 ---------------------------------------------------------------------------
 Dom ==
-    CASE Which \in {"C02", "C03", "C03ite", "C04", "C07", "C20"} -> W
+    CASE Which \in {"C03", "C03ite", "C04", "C07", "C20"} -> W
+      [] Which = "C02" -> {<<"n", a>> : a \in W} \cup {<<"s", S>> : S \in SUBSET Asg}
       [] Which \in {"C05c", "C05l"} -> SeqsUpTo(W, LMax)
 
 Thm(a) ==
